@@ -802,7 +802,7 @@ func (ck *c10checker) collectRaces(dir string) {
 func runC10(r *core.Run) (bool, string) {
 	r.SetRule("evaluations = client-boundary operations recorded and judged; distinct_nontrivial = distinct per-address sub-histories (implementation + order of call/return events with clients, operation kinds and values) that contain at least one pair of overlapping operations (plain layer) or of overlapping writes (shaped layer). " +
 		"Plain layer, each history: 2–16 client goroutines, 20–60 operations each (Write 40 %, Read 25 %, ReadTo 27 %, Size 8 %), 70–99 % of them on 1–3 hot addresses of a 4–16 block disk made by package disk or async_disk; every written block carries one stamp (address, client, seq) in all 512 words; after the clients have joined the main goroutine reads every block. " +
-		"Shaped layer (shaped_* keys), each history: 2–10 clients, 15–45 rounds on 1–2 hot addresses of a 1–12 block disk; a round = observation phase (clients read the hot addresses, nobody writes), spin barrier, burst (1–3 operations per client, 82 % writes), spin barrier; a written block is the block the writer last observed at the address with its stamp put into a region only — whole block, header, trailer, inside a middle sector, two sectors, or nowhere (payload equal to the observation); after the join the main goroutine reads every block. " +
+		"Fresh-start histories (shaped_fresh_start_*): thousands of newly created disks used for one or two rounds by 2–8 clients whose first operations are released together (no read precedes the first burst). Shaped layer (shaped_* keys), each history: 2–10 clients, 15–45 rounds on 1–2 hot addresses of a 1–12 block disk; a round = observation phase (clients read the hot addresses, nobody writes), spin barrier, burst (1–3 operations per client, 82 % writes), spin barrier; a written block is the block the writer last observed at the address with its stamp put into a region only — whole block, header, trailer, inside a middle sector, two sectors, or nowhere (payload equal to the observation); after the join the main goroutine reads every block. " +
 		"MemDisk: porcupine per address against a register (60 s; whole block contents are the values in the shaped layer), a block that is no single write's payload = violation, -race child runs = race reports with a library frame are violations. " +
 		"Both implementations: a read that overlaps no write to its address must return exactly the payload of a write that returned before it began and is not followed in real time by another such write (the zero block if there is none); no block may contain a stamp of another address. FileDisk reads that overlap a write: tearing only counted")
 	r.Assume("timestamps come from the process-wide monotonic clock (time.Since) taken by the calling goroutine before the call and after the return; equal timestamps are treated as overlapping")
@@ -838,13 +838,18 @@ func runC10(r *core.Run) (bool, string) {
 	nRace := r.Pick(200, 4000)
 	perChild := r.Pick(10, 50)
 	nShape := r.Pick(c10ShapeQuick, 12000)
+	nFresh := r.Pick(c10FreshQuick, 120000)
 	if !layer("plain") {
 		nPlain = 0
 	}
 	if !layer("shape") {
 		nShape = 0
 	}
+	if !layer("fresh") {
+		nFresh = 0
+	}
 	perShapeChild := r.Pick(50, 200)
+	perFreshChild := r.Pick(500, 2000)
 	raceDir := filepath.Join(r.Scratch, "race")
 	os.MkdirAll(raceDir, 0o755)
 	type job struct {
@@ -875,6 +880,10 @@ func runC10(r *core.Run) (bool, string) {
 	var shapeJobs []job
 	for first, k := 0, 0; first < nShape; first, k = first+perShapeChild, k+1 {
 		shapeJobs = append(shapeJobs, job{"shape", first, min(perShapeChild, nShape-first), shapeGmps[k%len(shapeGmps)], id})
+		id++
+	}
+	for first, k := 0, 0; first < nFresh; first, k = first+perFreshChild, k+1 {
+		shapeJobs = append(shapeJobs, job{"shape", shFreshBase + first, min(perFreshChild, nFresh-first), shapeGmps[k%len(shapeGmps)], id})
 		id++
 	}
 	// interleave shaped and plain children
@@ -937,7 +946,11 @@ func runC10(r *core.Run) (bool, string) {
 					r.Inconclusive("unparsable-history")
 					continue
 				}
-				r.Count("shaped_histories", 1)
+				if rec.Fresh {
+					r.Count("shaped_fresh_start_histories_"+rec.Impl, 1)
+				} else {
+					r.Count("shaped_histories", 1)
+				}
 				ck.checkShaped(&rec)
 				continue
 			}
@@ -992,5 +1005,6 @@ func runC10(r *core.Run) (bool, string) {
 // below what the unchanged tree yields)
 const (
 	c10ShapeQuick      = 1200
+	c10FreshQuick      = 16000
 	c10ShapeFloorReads = 10000
 )
